@@ -12,7 +12,7 @@ remove_from_tree deletes the key and either records the new root or, when the tr
 removes the metadata entry; both use the primary key computed from the entry's key; (3) batch
 operations (init / insert / remove) write the value column, the tree (nodes / tree updates) and the
 metadata entry of the primary key on every success path that has items; init refuses an already
-initialised primary key.
+initialised primary key. (4) batch insert / remove: every element of the batch reaches the tree update and the tree loop and the value-column write consume the one encoded set.
 """
 NOT_DECIDED = """Root values; batches spanning several primary keys (the batch operations take the primary
 key of the first element — API contract, noted, not judged)."""
